@@ -1,7 +1,7 @@
 (* Property C11 -- written archives conform to the documented format and report settings verbatim.
    Models: Model/Compress.v (writers), Model/Proto.v (prost codec), Model/Archive.v (header). *)
 From Bita Require Import Model.Base Gen.Generated Model.Proto Model.Archive Model.Compress.
-From Bita Require Import Model.Chunker Proofs.BoundaryRule Proofs.ProtoRoundTrip Proofs.CompressConform.
+From Bita Require Import Model.Chunker Proofs.BoundaryRule Proofs.ProtoRoundTrip Proofs.CompressConform Proofs.RoundTrip.
 
 (* the dictionary codec: what the writer encodes is what a reader following the schema decodes *)
 Theorem C11_decode_encode_dict : forall d, dict_wf d ->
@@ -57,6 +57,22 @@ Theorem C11_archive_is_header_then_chunks : forall (H comp : list N -> list N) s
   bytes = build_header H (encode_dict d) None ++ data.
 Proof. exact compress_model_layout. Qed.
 
+(* the reader reports back what the writer was asked to record *)
+Theorem C11_reader_reports_writer :
+  forall (H comp : list N -> list N),
+    (forall x, lenN (H x) = 64) -> (forall x, Forall (fun b => b < 256) (H x)) ->
+    forall src o bytes,
+      opts_ok o -> bytes_ok src -> lenN src < 18446744073709551616 -> lenN bytes < 18446744073709551616 ->
+      compress_model H comp src o = Ok bytes ->
+      exists a, try_init H (file_read_at bytes) = Ok a
+        /\ a_total a = lenN src /\ a_source_checksum a = H src
+        /\ a_cfg a = cfg_read (o_cfg o)
+        /\ a_hashlen a = o_hashlen o /\ a_comp a = o_comp o
+        /\ a_meta a = o_meta o /\ a_version a = o_version o
+        /\ a_data_offset a = a_header_size a.
+Proof. exact reader_reports_writer. Qed.
+
+Print Assumptions C11_reader_reports_writer.
 Print Assumptions C11_compress_conforming.
 Print Assumptions C11_header_layout.
 Print Assumptions C11_archive_is_header_then_chunks.
